@@ -367,7 +367,7 @@ func (p *queryPlan) processClause(ctx context.Context, cls *semantic.GraphClause
 		})
 		// Data is new.
 		stmLimit := int64(0)
-		if len(p.stm.GraphPatternClauses()) == 1 && len(p.stm.GroupBy()) == 0 && len(p.stm.HavingExpression()) == 0 {
+		if p.canPushLimitDown(cls) {
 			stmLimit = p.stm.Limit()
 		}
 		tbl, err := simpleFetch(ctx, p.grfs, cls, lo, stmLimit, p.chanSize, p.tracer)
@@ -395,6 +395,23 @@ func (p *queryPlan) processClause(ctx context.Context, cls *semantic.GraphClause
 		}
 	})
 	return false, p.specifyClauseWithTable(ctx, cls, lo)
+}
+
+// canPushLimitDown returns true if the LIMIT of the statement can be handed to the
+// driver while fetching the clause: the statement has to be a single clause one
+// without grouping, HAVING or ORDER BY, and every triple the driver returns has
+// to become a row, that is, the clause is three different plain bindings.
+func (p *queryPlan) canPushLimitDown(cls *semantic.GraphClause) bool {
+	if len(p.stm.GraphPatternClauses()) != 1 || len(p.stm.GroupBy()) != 0 || len(p.stm.HavingExpression()) != 0 || len(p.stm.OrderBy()) != 0 {
+		return false
+	}
+	if cls.S != nil || cls.P != nil || cls.O != nil || cls.PID != "" || cls.OID != "" || cls.HasAlias() {
+		return false
+	}
+	if cls.PAnchorBinding != "" || cls.OAnchorBinding != "" {
+		return false
+	}
+	return cls.SBinding != cls.PBinding && cls.SBinding != cls.OBinding && cls.PBinding != cls.OBinding
 }
 
 // getBoundValueForComponent return the unique bound value if available on
@@ -478,7 +495,7 @@ func (p *queryPlan) addSpecifiedData(ctx context.Context, r table.Row, cls *sema
 	})
 
 	stmLimit := int64(0)
-	if len(p.stm.GraphPatternClauses()) == 1 && len(p.stm.GroupBy()) == 0 && len(p.stm.HavingExpression()) == 0 {
+	if p.canPushLimitDown(cls) {
 		stmLimit = p.stm.Limit()
 	}
 	tbl, err := simpleFetch(ctx, p.grfs, cls, lo, stmLimit, p.chanSize, p.tracer)
